@@ -532,6 +532,8 @@ fn block_iters(b: &Block, sub_delay: u16) -> u64 {
         Block::Heavy => 2,
         Block::SetVector { .. } => 4,
         Block::LoadEr5(_) => 1,
+        Block::StoreVia { .. } => 3,
+        Block::StoreW { .. } => 2,
     }
 }
 
@@ -691,7 +693,8 @@ pub fn generate(rng: &mut Rng, tier: Tier, frames: bool) -> Scn {
         events.push(Event { trig, act });
     }
     if flood && !irq_vectors.is_empty() {
-        let n = rng.range(40, 120) as usize;
+        // 1 flood in 10 is a mega flood (counters and depths beyond 8 bits)
+        let n = if rng.chance(1, 10) { rng.range(256, 700) } else { rng.range(40, 120) } as usize;
         let trig = if !masked_blocks.is_empty() { Trigger::AtBlock { block: (*rng.pick(&masked_blocks)).min(guest.blocks.len() - 1), nth: 0 } } else { Trigger::Iter(rng.below(est + 2)) };
         events.push(Event { trig, act: Action::Burst((0..n).map(|_| *rng.pick(&irq_vectors)).collect()) });
     }
@@ -779,6 +782,9 @@ pub fn execute(scn: &Scn, stats: &mut Stats, mode: Mode) -> Verdict {
     }
     if obs.burst_max >= 65 {
         bump(stats, "probe.burst_ge_65_requests");
+    }
+    if obs.burst_max >= 256 {
+        bump(stats, "probe.burst_ge_256_requests");
     }
     if obs.max_depth >= 2 {
         bump(stats, "probe.nesting_depth_ge_2");
